@@ -28,6 +28,7 @@ type COp struct {
 	EWI  bool   `json:"ewi,omitempty"`  // the payload implements EventWrapperInfo
 	F    int    `json:"f,omitempty"`    // which filter the operation goes to: 0 = the case's filter, 1 = a second filter built from the SAME salt / info slices
 	Orig bool   `json:"orig,omitempty"` // rotate: back to the very slices the filters were built from (the caller's configuration)
+	SL   bool   `json:"sl,omitempty"`   // the payload has slice-typed fields; Data lists the elements (2..5, equal and empty ones included)
 	TM   bool   `json:"tm,omitempty"`   // the payload is a Taggable map: data[0] as []byte and as string under hmac tags, data[1] likewise under encrypt tags
 	EvID int    `json:"evid,omitempty"` // event id "ev<n>", 0 = ""
 	Data []int  `json:"data,omitempty"` // data ids of the five filtered fields
@@ -100,6 +101,14 @@ func callbackPart(c CCase, keys []keyCand) []string {
 	return out
 }
 
+// CSlices: slice-typed fields under hmac and under encrypt: every ELEMENT is a value of its own
+type CSlices struct {
+	HS []string  `class:"sensitive,hmac-sha256"`
+	HB [][]byte  `class:"secret,hmac-sha256"`
+	PS *[]string `class:"sensitive,hmac-sha256"`
+	ES []string  `class:"sensitive"`
+}
+
 // CTM: a Taggable map holding the same data as []byte and as string under tagged keys
 type CTM map[string]interface{}
 
@@ -134,11 +143,18 @@ func poolBytes(kind string, i int) []byte {
 		return []byte(kind[:1] + "4")
 	case i == 5:
 		return []byte(kind + "-5-a-longer-value")
+	case i == 6:
+		// a look-alike of value 1: with a trailing NUL byte for the info; for the salt with a trailing space, because an HKDF
+		// salt is an HMAC key and HMAC keys are zero-padded: "salt-1" and "salt-1\x00" are the SAME salt
+		if kind == "salt" {
+			return []byte(kind + "-1 ")
+		}
+		return []byte(kind + "-1\x00")
 	}
 	return []byte(fmt.Sprintf("%s-%d", kind, i))
 }
 
-const poolMax = 5
+const poolMax = 6
 
 var dataPool [][]byte
 
@@ -187,16 +203,95 @@ type attribution struct {
 	ok            bool
 }
 
-// every candidate key: the four wrappers and what NewEventWrapper derives from each for the three event ids
-func keyCands() []keyCand {
+// the event ids of EventWrapperInfo payloads (index 0 = ""): look-alikes that differ in case, in white space at either end, in a
+// trailing newline / NUL byte, a long one and a non-ASCII one - the per-event key is derived from the EXACT bytes
+var evIDs = []string{"", "Ev-1", "Ev-2", "Ev-3", " ", "a", "a ", " a", "A", "a\n", "a\x00", strings.Repeat("event-id-", 24), "\xc3\xa9v\xc3\xa9nement-\xe6\x97\xa5\xe6\x9c\xac"}
+
+// Event ids that differ only in trailing NUL bytes derive the SAME per-event key: NewEventWrapper uses the id as HKDF salt, an
+// HKDF salt is an HMAC key, and HMAC keys are zero-padded.  The model is handed one id for them.
+func canonEv(i int) int {
+	if i > 0 && i < len(evIDs) {
+		t := strings.TrimRight(evIDs[i], "\x00")
+		for j := 1; j < i; j++ {
+			if evIDs[j] == t {
+				return j
+			}
+		}
+	}
+	return i
+}
+
+func evID(i int) string {
+	if i <= 0 || i >= len(evIDs) {
+		return ""
+	}
+	return evIDs[i]
+}
+
+var derivedKeyCache = map[int][]byte{}
+
+// candidate keys: the wrappers and what NewEventWrapper derives from each for the given event ids (all of them when ids is nil)
+func keyCandsFor(ids []int) []keyCand {
+	if ids == nil {
+		for e := 1; e < len(evIDs); e++ {
+			ids = append(ids, e)
+		}
+	}
 	var out []keyCand
 	for w := 1; w <= nWrappers; w++ {
 		out = append(out, keyCand{w, keyBytes(cWrappers[w])})
-		for e := 1; e <= 3; e++ {
-			out = append(out, keyCand{w*1000 + e, deriveEventKey(keyBytes(cWrappers[w]), fmt.Sprintf("Ev-%d", e))})
+		for _, e := range ids {
+			if canonEv(e) != e {
+				continue
+			}
+			id := w*1000 + e
+			hkdfCacheMu.Lock()
+			k, ok := derivedKeyCache[id]
+			if !ok {
+				k = deriveEventKey(keyBytes(cWrappers[w]), evID(e))
+				derivedKeyCache[id] = k
+			}
+			hkdfCacheMu.Unlock()
+			out = append(out, keyCand{id, k})
 		}
 	}
 	return out
+}
+
+// the candidates of a case: the event ids it uses first; every other id is tried as well (so that a value under the key of
+// ANOTHER id is named, not just "unknown")
+func keyCands() []keyCand { return keyCandsFor(nil) }
+
+func keyCandsOf(c CCase) []keyCand {
+	seen := map[int]bool{}
+	var ids []int
+	for _, o := range c.Ops {
+		if o.EWI && o.EvID > 0 && !seen[o.EvID] {
+			seen[o.EvID] = true
+			ids = append(ids, o.EvID)
+		}
+	}
+	for e := 1; e < len(evIDs); e++ {
+		if !seen[e] {
+			ids = append(ids, e)
+		}
+	}
+	// the wrappers themselves first, then per id
+	all := keyCandsFor(ids)
+	var base, derived []keyCand
+	for _, k := range all {
+		if k.id < 1000 {
+			base = append(base, k)
+		}
+	}
+	for _, e := range ids {
+		for _, k := range all {
+			if k.id >= 1000 && k.id%1000 == e {
+				derived = append(derived, k)
+			}
+		}
+	}
+	return append(base, derived...)
 }
 
 func attributeEnc(s string, orig []byte, keys []keyCand, ship bool) string {
@@ -280,10 +375,22 @@ func mkPayload(o COp) interface{} {
 	if o.TM {
 		return CTM{"hb": d(0), "hs": string(d(0)), "eb": d(1), "es": string(d(1))}
 	}
+	if o.SL {
+		p := &CSlices{PS: &[]string{}}
+		for i := range o.Data {
+			p.HS = append(p.HS, string(d(i)))
+			p.HB = append(p.HB, d(i))
+			*p.PS = append(*p.PS, string(d(i)))
+			if i < 2 {
+				p.ES = append(p.ES, string(d(i)))
+			}
+		}
+		return p
+	}
 	if o.EWI {
 		id := ""
 		if o.EvID > 0 {
-			id = fmt.Sprintf("Ev-%d", o.EvID)
+			id = evID(o.EvID)
 		}
 		return &CEwi{E1: string(d(0)), E2: d(1), H1: string(d(2)), H2: d(3), E3: string(d(4)), id: id, salt: poolBytes("salt", o.S), info: poolBytes("info", o.I)}
 	}
@@ -296,6 +403,16 @@ func outFields(p interface{}) []string {
 		return []string{x.E1, string(x.E2), x.H1, string(x.H2), x.E3}
 	case *CEwi:
 		return []string{x.E1, string(x.E2), x.H1, string(x.H2), x.E3}
+	case *CSlices:
+		var out []string
+		out = append(out, x.HS...)
+		for _, b := range x.HB {
+			out = append(out, string(b))
+		}
+		if x.PS != nil {
+			out = append(out, *x.PS...)
+		}
+		return append(out, x.ES...)
 	case CTM:
 		out := make([]string, 4)
 		for i, k := range []string{"hb", "hs", "eb", "es"} {
@@ -323,7 +440,7 @@ type cresult struct {
 
 func execCrypto(c CCase) cresult {
 	ctx := context.Background()
-	keys := keyCands()
+	keys := keyCandsOf(c)
 	origSalt, origInfo := poolBytes("salt", c.Init.S), poolBytes("info", c.Init.I)
 	mk := func() *encrypt.Filter {
 		if c.ViaRotate {
@@ -394,7 +511,7 @@ func execCrypto(c CCase) cresult {
 				if o.EWI {
 					id := "[]"
 					if o.EvID > 0 {
-						id = "[" + hc.N(o.EvID) + "]"
+						id = "[" + hc.N(canonEv(o.EvID)) + "]"
 					}
 					ewi = fmt.Sprintf("(Some (%s, %s, %s))", id, optBstrLit(o.S), optBstrLit(o.I))
 				}
@@ -404,6 +521,14 @@ func execCrypto(c CCase) cresult {
 				if o.TM {
 					dataOf = []int{o.Data[0], o.Data[0], o.Data[1], o.Data[1]}
 					isHmac = func(i int) bool { return i < 2 }
+				}
+				if o.SL {
+					n := len(o.Data)
+					dataOf = append(append(append([]int{}, o.Data...), o.Data...), o.Data...)
+					for i := 0; i < n && i < 2; i++ {
+						dataOf = append(dataOf, o.Data[i])
+					}
+					isHmac = func(i int) bool { return i < 3*n }
 				}
 				vals := make([]string, len(dataOf))
 				for i, d := range dataOf {
@@ -499,7 +624,7 @@ func concurrentPart(c CCase, keys []keyCand, res *cresult) []string {
 	one := func(evid, want int) {
 		var p interface{} = &CPlain{E1: "x", E2: []byte("y"), H1: "data", H2: []byte("data"), E3: "z"}
 		if evid > 0 {
-			p = &CEwi{E1: "x", E2: []byte("y"), H1: "data", H2: []byte("data"), E3: "z", id: fmt.Sprintf("Ev-%d", evid)}
+			p = &CEwi{E1: "x", E2: []byte("y"), H1: "data", H2: []byte("data"), E3: "z", id: evID(evid)}
 		}
 		ev, err := f.Process(ctx, &el.Event{Type: "t", CreatedAt: fixedTime, Payload: p})
 		var items []string
@@ -639,17 +764,28 @@ func (g *gen) cryptoCase(n int) CCase {
 			o := COp{K: "event", S: -1, I: -1, Data: []int{pick(), pick(), pick(), pick(), pick()}}
 			if r.Chance(1, 6) {
 				o.TM = true
+			} else if r.Chance(1, 6) {
+				// slice-typed fields: 2..5 elements, now and then equal ones
+				o.SL = true
+				o.Data = nil
+				for n := 2 + r.Intn(4); n > 0; n-- {
+					if len(o.Data) > 0 && r.Chance(1, 3) {
+						o.Data = append(o.Data, o.Data[r.Intn(len(o.Data))])
+					} else {
+						o.Data = append(o.Data, pick())
+					}
+				}
 			} else if r.Chance(2, 5) {
 				o.EWI = true
-				o.EvID = r.Intn(4)
+				o.EvID = r.Intn(len(evIDs))
 				if r.Chance(3, 4) && o.EvID == 0 {
-					o.EvID = 1 + r.Intn(3)
+					o.EvID = 1 + r.Intn(len(evIDs)-1)
 				}
 				o.S, o.I = comp(), comp()
 			}
 			if r.Chance(1, 3) && i > 0 { // the same data again: determinism across events and rotations
 				for _, p := range c.Ops {
-					if p.K == "event" {
+					if p.K == "event" && p.SL == o.SL {
 						o.Data = append([]int{}, p.Data...)
 					}
 				}
@@ -676,6 +812,18 @@ func cryptoSpecials() []CCase {
 			{K: "event", EWI: true, EvID: 0, S: 1, I: 1, Data: all(d)},
 			{K: "event", EWI: true, EvID: 2, S: 3, I: 3, Data: all(d)},
 			{K: "event", TM: true, S: -1, I: -1, Data: all(d)}}})
+	}
+	// slice-typed fields: equal elements, empty elements, five elements
+	out = append(out, CCase{Gen: "special", Init: COp{W: 1, S: 1, I: 1}, Ops: []COp{
+		{K: "event", SL: true, S: -1, I: -1, Data: []int{1, 1}}, {K: "event", SL: true, S: -1, I: -1, Data: []int{0, 1, 0, 2, 1}},
+		{K: "event", SL: true, S: -1, I: -1, Data: []int{2, 4, 9}}, {K: "rotate", W: 2, S: 6, I: -1}, {K: "event", SL: true, S: -1, I: -1, Data: []int{1, 1, 3}}}})
+	// per-event wrapper info: every look-alike event id, under the same filter key
+	{
+		c := CCase{Gen: "scenario", Init: COp{W: 1, S: 1, I: 6}}
+		for e := 1; e < len(evIDs); e++ {
+			c.Ops = append(c.Ops, COp{K: "event", EWI: true, EvID: e, S: -1, I: -1, Data: all(1)})
+		}
+		out = append(out, c)
 	}
 	// rotations (payload and Rotate) to a wrapper with the SAME key id and another key, and back
 	out = append(out, CCase{Gen: "scenario", Init: COp{W: 1, S: 1, I: 1}, Ops: []COp{
